@@ -101,16 +101,17 @@ type handle struct {
 }
 
 type srcState struct {
-	idx     int
-	spec    SourceSpec
-	wa      dials.WatchArgs
-	typ     *dials.Type
-	blank   *sourcewrap.Blank
-	src     dials.Source
-	handed  []handed
-	doneAt  int
-	subs    map[string]*subState // reporter client -> what it has submitted
-	lastVal map[string]lastValue
+	idx       int
+	spec      SourceSpec
+	wa        dials.WatchArgs
+	typ       *dials.Type
+	blank     *sourcewrap.Blank
+	src       dials.Source
+	handed    []handed
+	doneAt    int
+	doneTried bool                 // Done was called at least once (delivered or not)
+	subs      map[string]*subState // reporter client -> what it has submitted
+	lastVal   map[string]lastValue
 	// a watching inner source handed to the Blank: what its Watch was given
 	innerCtx context.Context
 	innerWA  dials.WatchArgs
@@ -600,6 +601,7 @@ func (r *Run) reporter(c *ClientSpec) {
 		case "done":
 			rec := r.begin(c, i, op)
 			ctx, cancel := r.opCtx(op, rec)
+			st.doneTried = true
 			st.wa.Done(ctx)
 			r.end(rec, nil)
 			if ctx.Err() == nil && st.innerWA == nil {
